@@ -76,7 +76,7 @@ fn judge<T: LFloat, const FMT: u128>(cx: &mut Cx, spec: &Spec, opts: &lexical_co
                     } else if !exact_ok {
                         bump(&mut cx.counts, "lossy-off-by-one");
                         // results that are zero / infinity when correctly rounded must be unchanged
-                        if oracle::is_correctly_rounded(k, &x, 0) || oracle::is_correctly_rounded(k, &x, k.inf_bits()) {
+                        if oracle::clearly_zero(k, &x) || oracle::clearly_inf(k, &x) {
                             Some("lossy-zero-inf")
                         } else {
                             None
